@@ -231,7 +231,16 @@ def build_optimized_pattern(choices: list[ChoiceChoice], repeat: str = "") -> st
                 char_class_parts.append(val.upper() if val.isascii() else val)
                 char_class_parts.append(val.lower() if val.isascii() else val)
             case ChoiceLiteral(value=val, case=ChoiceCase.INSENSITIVE):
-                insensitive_parts.append(f"(?ai:{re.escape(val)})")
+                # A scoped `(?ai:...)` does not restrict case folding to ASCII and
+                # a global ASCII flag would change Unicode property classes.
+                insensitive_parts.append(
+                    "".join(
+                        f"[{ch.upper()}{ch.lower()}]"
+                        if ch.isascii() and ch.isalpha()
+                        else re.escape(ch)
+                        for ch in val
+                    )
+                )
             case ChoiceLiteral(value=val, case=ChoiceCase.SENSITIVE) if len(val) == 1:
                 char_class_parts.append(val)
             case ChoiceLiteral(value=val, case=ChoiceCase.SENSITIVE):
